@@ -2,6 +2,7 @@ import AkVerif.Lemmas.LLC03
 import AkVerif.Lemmas.LLSession
 import AkVerif.Lemmas.LLTransfer2
 import AkVerif.Lemmas.LLCtorRec
+import AkVerif.Lemmas.LLTmpl
 /-!
 # C03 — left-recursive grammars are rejected; accepted grammars always terminate
 
@@ -137,6 +138,19 @@ theorem parse_total (inp : CtorIn) (P : Parser) (hP : construct inp = .ok P)
     ∃ k, ∀ fuel, k ≤ fuel → (∃ t, P.parse raw fuel = .ok t) ∨ P.parse raw fuel = .error .parsingError :=
   parse_total_of_built (construct_built hP).core (built_struct (construct_built hP)).1
     (built_struct (construct_built hP)).2 raw
+
+/-- **Termination, totality and the stack bound for dictionaries with production templates**
+(`ProdSequence`, `ListProds`, `MapProds`; whatever productions the templates generate — they are data `T`, no
+condition on them): a dictionary the constructor accepts has no cycle, and `parse` returns a tree or raises
+`ParsingError` on every input with a stack below `(|tokens|+1)·B`.  (A `ProdSequence` with a nullable member,
+`S → S__ELEMENT S`, is therefore never accepted.) -/
+theorem templates_total (T : Tmpl) (inp : CtorIn) (P : Parser) (hP : constructG T inp = .ok P) :
+    (¬ ∃ X, Plus (Reach1 P.prods P.nullables) X X) ∧
+    (∀ raw, ∃ k, ∀ fuel, k ≤ fuel →
+      (∃ t, P.parse raw fuel = .ok t) ∨ P.parse raw fuel = .error .parsingError) ∧
+    (∃ B, ∀ raw n st, iter P.cfg (P.tokens raw) n (initStack startSym P.start endSym) = .cont st →
+      st.length ≤ ((P.tokens raw).length + 1) * B) :=
+  ⟨accepted_no_cycle_G hP, fun raw => parse_total_G hP raw, stack_bound_G hP⟩
 
 /-- **Totality of `parse(text, start_symbol_name=s)`**, any `s`: `AssertionError` when `s` is not a key
 of the factorised dictionary, otherwise a tree or `ParsingError` — the explicit start symbol cannot
